@@ -299,8 +299,19 @@ def Modelled (c : Core) : MEv → Prop
   | .stop tag => let h := handlerName c tag
       c.incontent = false ∧ contentEndKey h = none ∧ extKind h = none ∧ lgKind h = none ∧
       (h == S "channel" || h == S "feed" || h == S "item" || h == S "entry" || (dateKey h).isSome || !hasEnd h) = true
-  | .cref r => (crefText r).isSome = true       -- what sgmllib's tokenizer hands over always is a number
   | _ => True
+
+/-- `handle_charref` is total: whatever digit string (or anything else) the tokenizer hands over, some text is appended.  Before the fix: commit ff44fef this
+was false of the CODE at digit strings of more than 4300 characters (`int()` raises `ValueError`); the model's `parseNat` has no such limit, and making the
+model total is what exposed the difference. -/
+theorem crefText_total (r : Str) : (crefText r).isSome = true := by
+  unfold crefText
+  simp only []
+  split
+  · rfl
+  · split
+    · rfl
+    · split <;> rfl
 
 theorem step_total (o : Ops) (s : MSt) (e : MEv) (hm : Modelled s.c e) : ∃ s', mstep o s e = .ok s' := by
   cases e with
@@ -337,11 +348,10 @@ theorem step_total (o : Ops) (s : MSt) (e : MEv) (hm : Modelled s.c e) : ∃ s',
   | data t => exact ⟨_, rfl⟩
   | ns p u => exact ⟨_, rfl⟩
   | cref r =>
-    simp only [Modelled] at hm
     simp only [mstep]
     cases hc : crefText r with
     | some t => exact ⟨_, rfl⟩
-    | none => rw [hc] at hm; cases hm
+    | none => have := crefText_total r; rw [hc] at this; cases this
   | eref r => exact ⟨_, rfl⟩
 
 /-! ### …nor on the hand-modelled element handlers of stages 4, 5 and 7
